@@ -85,7 +85,7 @@ class Obligation:
 
 
 class State:
-    __slots__ = ("locals", "heap", "pc", "resume", "writes")
+    __slots__ = ("locals", "heap", "pc", "resume", "writes", "decisions")
 
     def __init__(self):
         self.locals: dict[str, V] = {}
@@ -93,6 +93,7 @@ class State:
         self.pc: list = []
         self.resume: "State | None" = None   # generator verification: snapshot at the last resumption point
         self.writes: dict = {}               # heap key -> list of written object refs, or None (= anywhere)
+        self.decisions: set = set()          # id() of the pc entries that are branch decisions (the rest are facts)
 
     def copy(self) -> "State":
         s = State()
@@ -101,6 +102,7 @@ class State:
         s.pc = list(self.pc)
         s.resume = self.resume
         s.writes = {k: (None if v is None else list(v)) for k, v in self.writes.items()}
+        s.decisions = set(self.decisions)
         return s
 
     def note_write(self, key, obj):
@@ -114,10 +116,12 @@ class State:
         s.resume = None
         return s
 
-    def assume(self, c):
+    def assume(self, c, decision=False):
         if z3.is_true(c):
             return
         self.pc.append(c)
+        if decision:
+            self.decisions.add(id(c))
 
 
 @dataclass
@@ -509,9 +513,9 @@ class Engine:
             st.assume(z3.Not(cond))
             return
         es = st.copy()
-        es.assume(cond)
+        es.assume(cond, True)
         fr.exc.append(Outcome("raise", es, None, exc, where))
-        st.assume(z3.Not(cond))
+        st.assume(z3.Not(cond), True)
 
     def quick_infeasible(self, st: State, cond) -> bool:
         """Cheap, sound filter for exception edges: the edge is dropped only if the path condition (without
@@ -960,6 +964,8 @@ class Engine:
             return seq_ops(kt).Mem(self.dict_keys(st, coll), self.coerce(x, kt).z)
         if k == "set":
             return z3.Select(self.set_arr(st, coll), self.coerce(x, coll.t.args[0]).z)
+        if k == "arr" and coll.t.args[1] == BOOL:
+            return z3.Select(coll.z, self.coerce(x, coll.t.args[0]).z)
         raise CheckerError(f"{fr.qname}: `in` on {coll.t} not modelled {where}")
 
     # ---- attribute / subscript ------------------------------------------------------------
@@ -1499,9 +1505,9 @@ class Engine:
         self.dropped.add("assert messages (f-strings) are not evaluated")
         outs = []
         es = st.copy()
-        es.assume(z3.Not(c))
+        es.assume(z3.Not(c), True)
         outs.append(Outcome("raise", es, None, "AssertionError", f"L{s.lineno}"))
-        st.assume(c)
+        st.assume(c, True)
         outs.append(Outcome("ok", st))
         return outs
 
@@ -1542,8 +1548,8 @@ class Engine:
         if self.quick_infeasible(st, z3.Not(c)):
             st.assume(c)
             return self.ex_block(s.body, st, fr)
-        a = st.copy(); a.assume(c)
-        b = st; b.assume(z3.Not(c))
+        a = st.copy(); a.assume(c, True)
+        b = st; b.assume(z3.Not(c), True)
         outs = self.ex_block(s.body, a, fr)
         outs += self.ex_block(s.orelse, b, fr) if s.orelse else [Outcome("ok", b)]
         return outs
@@ -1605,9 +1611,24 @@ class Engine:
         k = 0
         while k < n and all(s.pc[k] is states[0].pc[k] for s in states):
             k += 1
-        guards = [z3.And(*s.pc[k:]) if len(s.pc) > k else z3.BoolVal(True) for s in states]
+        # guards are the branch decisions taken since the common prefix; facts assumed on a branch stay available
+        # as implications under that branch's guard
+        guards, facts = [], []
+        for s in states:
+            dec = [x for x in s.pc[k:] if id(x) in s.decisions]
+            g = z3.And(*dec) if dec else z3.BoolVal(True)
+            guards.append(g)
+            for x in s.pc[k:]:
+                if id(x) not in s.decisions:
+                    facts.append(x if z3.is_true(g) else z3.Implies(g, x))
+        for i in range(len(guards)):
+            for j in range(i + 1, len(guards)):
+                if guards[i].eq(guards[j]):
+                    raise CheckerError("state merge: two paths are not separated by a branch decision (would be unsound to merge)")
         m = State()
-        m.pc = list(states[0].pc[:k]) + [z3.Or(*guards)]
+        m.pc = list(states[0].pc[:k]) + [z3.Or(*guards)] + facts
+        for s in states:
+            m.decisions |= {d for d in s.decisions if any(id(x) == d for x in states[0].pc[:k])}
         names = set()
         for s in states:
             names |= set(s.locals)
